@@ -402,6 +402,13 @@ class Lowering:
                 return self.ctype(T('tmpl', 'std::span', args=[t.args[0]]))
             if n in ('std::atomic', 'std::__atomic_base'):
                 return self.ctype(t.args[0])      # sequential semantics: an atomic is its value
+            if n in ('std::basic_ostringstream', 'std::basic_ostream'):
+                # output string stream: its text and the formatting state that the lowered code can set (base, case, width, fill)
+                self.ctype(T('tmpl', 'std::basic_string', args=[T('prim', 'char')]))
+                self.typedef('cxx_oss', 'typedef struct cxx_oss { str buf; int base; _Bool upper; uint64_t width; char fill; } cxx_oss;')
+                self.helpers.add('oss')
+                self.helpers.add('str')
+                return 'cxx_oss'
             if n in ('std::mersenne_twister_engine', 'std::uniform_int_distribution'):
                 return 'cxx_rng'   # opaque: every draw is an arbitrary value of the result type (PRNG not modelled)
         raise LoweringError(f'no C type for {t!r}')
@@ -506,7 +513,7 @@ class Lowering:
                     'std::chrono::duration': 'duration', 'std::chrono::time_point': 'time_point',
                     'std::unordered_map': 'map', 'std::map': 'map', 'std::pair': 'pair', 'enum': 'enum',
                     'iter': 'iter', 'std::initializer_list': 'span', 'std::variant': 'variant',
-                    'std::mersenne_twister_engine': 'rng', 'std::uniform_int_distribution': 'rng', 'std::atomic': 'atomic', 'std::__atomic_base': 'atomic'}.get(t.name, t.name)
+                    'std::mersenne_twister_engine': 'rng', 'std::uniform_int_distribution': 'rng', 'std::basic_ostringstream': 'oss', 'std::basic_ostream': 'oss', 'std::atomic': 'atomic', 'std::__atomic_base': 'atomic'}.get(t.name, t.name)
         if t.kind == 'rec':
             return 'rec'
         return t.kind
@@ -650,6 +657,8 @@ class Unit(Lowering, ExprMixin, CallMixin, StmtMixin):
             self.ctype(self.resolve(parse_type('std::string')))
             self.ctype(self.resolve(parse_type('std::string_view')))
             out.append('CXX_STR()')
+        if 'oss' in self.helpers:
+            out.append('CXX_OSS()')
         for h in sorted(self.helpers, key=str):
             if isinstance(h, tuple):
                 kind, ct, s = h
